@@ -55,6 +55,7 @@ def convergence_case(args):
                     recipe["ops"] = [o for o in recipe["ops"] if not (o["op"] == "set_comp_phases" and o["name"] == op["comp"]["name"])]
                     recipe["ops"].append({"op": "set_comp_phases", "name": op["comp"]["name"], "conf": {p: rnd.choice([0.002, 0.01]) for p in ph["phases"]}})
     kw = dict(vtol=rnd.choice([1e-6, 1e-4, 1e-9, 1e-2]), itol=rnd.choice([1e-6, 1e-4, 1e-9, 1e-2]), maxiter=rnd.choice([0, 1, 2, 5, 50, 10000]))
+    if rnd.random() < 0.35: kw["quiet"] = False        # the progress message path (also when the tolerances are NOT met)
     out = {"hash": _hash([recipe, kw]), "failures": [], "nontrivial": True, "sample": None, "outcome": None}
     from sysloss.system import System
     s, _ = gen.build(recipe); m = Model.of(recipe)
@@ -65,7 +66,9 @@ def convergence_case(args):
         return orig(self, *a, **k)
     System._fwd_prop = counting
     try:
-        oc, df = _solve_outcome(s, **kw)
+        import io as _io_, contextlib as _cl_
+        with _cl_.redirect_stdout(_io_.StringIO()):
+            oc, df = _solve_outcome(s, **kw)
     finally:
         System._fwd_prop = orig
     out["outcome"] = oc
@@ -993,6 +996,10 @@ def _battery_model(rnd, cap0, v0, r0, steps, shape=None):
     return st, pfunc, dfunc
 
 
+class _StopModel(BaseException):
+    """a callback's own way out that is not an Exception"""
+
+
 def analysis_case(args):
     """C17: every analysis leaves the system, its components and the arguments untouched; batt_life restores the battery"""
     import tempfile, os, io as _io, contextlib
@@ -1059,15 +1066,16 @@ def analysis_case(args):
                         src = [n for n in s._g.attrs["nodes"] if type(s._g[s._g.attrs["nodes"][n]]).__name__ == "Source"][0]
                         st, pf, df_ = _battery_model(rnd, 0.002, abs(s._g[s._g.attrs["nodes"][src]]._params["vo"]) or 3.0, 0.05, 8)
                         kfail = rnd.choice([None, None, 1, 2, 3, 5])
-                        def dfx(dt, cur, df_=df_, st=st, kfail=kfail):
-                            if kfail is not None and st["deplete"] + 1 == kfail: st["deplete"] += 1; raise RuntimeError("battery model failed at call %d" % kfail)
+                        exc_cls = rnd.choice([RuntimeError, RuntimeError, KeyboardInterrupt, _StopModel])     # an Exception, or a BaseException that is none (Ctrl-C, own class)
+                        def dfx(dt, cur, df_=df_, st=st, kfail=kfail, exc_cls=exc_cls):
+                            if kfail is not None and st["deplete"] + 1 == kfail: st["deplete"] += 1; raise exc_cls("battery model failed at call %d" % kfail)
                             return df_(dt, cur)
                         def pfx(pf=pf, kfail=kfail):
                             if kfail == 1 and rnd.random() < 0.3: raise RuntimeError("probe failed")
                             return pf()
                         try:
                             s.batt_life(src, cutoff=0.5, pfunc=pfx, dfunc=dfx)
-                        except (RuntimeError, ValueError, ZeroDivisionError):
+                        except (RuntimeError, ValueError, ZeroDivisionError, KeyboardInterrupt, _StopModel):
                             pass
             except (ValueError, RuntimeError) as e:
                 if "Unstable" not in str(e) and "Steady" not in str(e) and "valid" not in str(e): F("readonly.exception", "%s raised %s: %s" % (c, type(e).__name__, str(e)[:80]))
